@@ -138,8 +138,8 @@ Proof.
       cbn [Nat.eqb parse_escape]. rewrite Ho, Hc, Ea. reflexivity.
     + (* \NNN *)
       apply andb_true_iff in Hi as [Hi Hc]. apply andb_true_iff in Hi as [Ha Hb]. cbn [app length] in *.
-      apply (good_special fuel acc 92 (a :: b :: c :: show items) (Lit [octal_val a * 64 + octal_val b * 8 + octal_val c]) (show items)
-               [octal_val a * 64 + octal_val b * 8 + octal_val c]); [reflexivity| |discriminate|cbn; reflexivity|lia|exact Hrest].
+      apply (good_special fuel acc 92 (a :: b :: c :: show items) (Lit (oct_out a b c)) (show items)
+               (oct_out a b c)); [reflexivity| |discriminate|cbn [render]; apply app_nil_r|lia|exact Hrest].
       cbn [Nat.eqb parse_escape]. rewrite Ha.
       assert (Hs : split_bytes 3 (a :: b :: c :: show items) = Some ([a; b; c], show items)).
       { rewrite !split_bytes_ascii by (apply octal_is_ascii; assumption). rewrite split_bytes_0. reflexivity. }
